@@ -93,6 +93,11 @@ CHECKS = {
    text="Proved: lock_flags_shape (decide on the regenerated expressions), lock_mutual_exclusion (at most one holder after every interleaving of lock/unlock/close by any number of handles), try_returns_immediately (SUCCESS if free, UNAVAILABLE if held), "
         "block_returns_only_when_acquired, unlock_releases. Observed: flock interposed (flags and status mapping), random handle histories against the model's holder set, forked processes with a shared occupancy counter in both modes, a BLOCK waiter that must not acquire before release.",
    note="flock semantics are the kernel's (assumed). 'Promptly' for TRY means LOCK_NB is passed, not a stopwatch.", ref="§5 C19"),
+ "C04": dict(cat="proof", tech="Lean 4 theorems over a release/acquire transition system (single-writer atomics with stale acquire loads, per-byte plain accesses, position-based happens-before) quantified over ALL schedules, tied to ring.c by the access log of its clang -fsanitize=thread instrumentation",
+   text="Proved for every ring size, every well-formed writer call sequence, every reader call sequence and EVERY schedule (every interleaving at every shared access, every stale value an acquire load may return): spsc_race_free (no plain buffer access unordered with the conflicting one), "
+        "spsc_deliveries_are_committed (every read/peek delivers exactly the committed bytes at its position), spsc_prefix, spsc_contents (nothing lost; uncommitted bytes never visible), spsc_quiescent_contents, spsc_wait_free (a thread scheduled alone finishes within a bound of its own work). "
+        "Tie: for each public function x N <= 16 (64 thorough) x every head pair x every request size, the logged sequence of atomic loads/stores with their memory orders, per-byte buffer accesses and any non-own plain head access equals the program the theorems are about; return value and heads too.",
+   note="The C11 release/acquire fragment is rendered as the machine of Model/RingRA.lean (trusted rendering, argued in DESIGN.md §5-C04); a weakened order cannot be exhibited on x86 hardware, so it is caught as a log mismatch. reset/mlock are not thread-safe by contract and are outside the programs. Two-thread soak run is support only.", ref="§5 C04"),
 }
 
 NOT_YET = "check not built yet in this revision (framework under construction; see DESIGN.md §8)"
